@@ -37,6 +37,35 @@ FRAGMENTS = [
     "        for i in range(7000):\n            out.append(i)\n",
     "    x = 7000 > 7001\n    if x == None:\n        pass\n",
 ]
+# constants at the edges of what the evaluator's host types can hold (C-level sizes, float range, digit limits): the
+# evaluator and its consumers may decline (ValueError inside, text unchanged) but must not let anything escape
+EXTREME = [
+    "for i in range(2**63):\n    print(i)\n    break\nprint(1)\n",
+    "for i in range(10**20):\n    print(i)\n    break\n",
+    "for i in range(0, 1 << 64, 1):\n    print(i)\n    break\nelse:\n    print(2)\n",
+    "for i in range(2**63 - 1):\n    print(i)\n    break\n",
+    "def main(v):\n    for i in range(-(2**64), 2**64):\n        return i\n    return v\n\n\nprint(main(1))\n",
+    "x = 10**400 / 3\nprint(x)\n",
+    "if 10**400 / 3 > 1:\n    print(1)\nprint(2)\n",
+    "if 2.0 ** 10000:\n    print(1)\n",
+    "if len(range(2**63)):\n    print(1)\nprint(2)\n",
+    "if 2**63 in range(2**64):\n    print(1)\n",
+    "if int('9' * 5000):\n    print(1)\n",
+    "if float('1e999') > 1 or float('nan') > 1:\n    print(1)\n",
+    "if 1e308 * 10 > 1 or 5 % 0.0:\n    print(1)\n",
+    "if 10 ** -400:\n    print(1)\nelse:\n    print(2)\n",
+    "if round(2.5, 10**10):\n    print(1)\n",
+    "if chr(10**7) or chr(-1):\n    print(1)\n",
+    "x = [i for i in range(0, 10**30, 10**29) if i > 5]\nprint(x)\n",
+    "y = [i for i in range(2**70) if i < 5 if i >= 2**65]\nprint(len(y))\n",
+    "if divmod(5, 0) or max(range(0)) or min(()):\n    print(1)\n",
+    "while 2**63 in range(2**64):\n    break\n",
+    "if 1 << 2**16:\n    print(1)\n",
+    "if 1 << -1 or 2 ** -1 or 0 ** -1:\n    print(1)\n",
+    "print(sum(range(2**63)), sum(i for i in range(2**64, 2**65)))\n",
+    "if [0] * 2**62 or 'ab' * -(2**70):\n    print(1)\n",
+    "if (2**70).bit_length() > 2**63 or (0.1).hex():\n    print(1)\n",
+]
 INVALID = ["def f(:\n    pass\n", "x = (1,\n", "   \n\n", "", "if x\n  y\n", "\tx = 1\n  y = 2\n", "print 'a'\n"]
 POSITIONS = ["only", "first", "last", "nested", "eof-no-newline"]
 
@@ -270,6 +299,7 @@ def obligations(tier, seed):
     # pool
     sks = poolfam.pool_skeletons(tier, seed) + poolfam.direct_edit_skeletons()
     frag = [pool.Skeleton("fragment/%d" % i, t, meta={"rule": None}) for i, t in enumerate(FRAGMENTS)]
+    frag += [pool.Skeleton("extreme/%d" % i, t, meta={"rule": None}) for i, t in enumerate(EXTREME)]
     eof = poolfam.eof_skeletons()
     jobs = []
     base = sks + frag + eof
@@ -282,7 +312,37 @@ def obligations(tier, seed):
                 jobs.append((s2, sk.meta["rule"]))
             jobs.append((s2, "format_code:safe=1"))
             jobs.append((s2, "format_code:safe=0,keep_imports=1"))
+    # opt-out comments change which edits go through (a rule whose edit is refused must still terminate): every
+    # physical line of the direct-edit skeletons annotated in turn, and one line of a sample of the pool
+    from vk import rulefam
+
+    def _body_lines(sk):
+        return [i for i, l in enumerate(sk.text.split("\n"))
+                if l.strip() and i >= sk.meta.get("first_line", 0) and not l.strip().startswith(("\"\"\"", "'''"))]
+
+    ann_jobs = []
+    for sk in poolfam.direct_edit_skeletons() + rulefam.tricky_skeletons():
+        for li in _body_lines(sk):
+            ann_jobs.append((sk, li))
+    r2 = random.Random(seed + 7)
+    for sk in (r2.sample(sks, 40) if quick else sks):
+        body = _body_lines(sk)
+        for li in (r2.sample(body, min(len(body), 2)) if quick else body[::2]):
+            ann_jobs.append((sk, li))
+    for sk, li in ann_jobs:
+        lines = sk.text.split("\n")
+        lines[li] = lines[li] + "  # pyrefact: ignore"
+        s2 = pool.Skeleton("%s@ignore%d" % (sk.sid, li), "\n".join(lines), lits=sk.lits, tape=sk.tape, meta=sk.meta)
+        if sk.meta.get("rule"):
+            jobs.append((s2, sk.meta["rule"]))
+        jobs.append((s2, "format_code:safe=0"))
     rules = [t for t in poolfam.scheduled_rules() if "numpy" not in t and "pandas" not in t]
+    for sk in frag:
+        if sk.sid.startswith("extreme/"):
+            for tr in ("rule:fixes.delete_unreachable_code", "rule:fixes.remove_dead_ifs", "rule:fixes.move_before_loop",
+                       "rule:symbolic_math.simplify_constrained_range", "rule:symbolic_math.simplify_math_iterators",
+                       "rule:fixes.remove_redundant_boolop_values", "rule:symbolic_math.simplify_boolean_expressions"):
+                jobs.append((sk, tr))
     for sk in (rnd.sample(sks, 6) + rnd.sample(eof, 40) if quick else sks[::3] + eof):
         for tr in rules:
             jobs.append((sk, tr))
